@@ -7,7 +7,8 @@
     is outside the model (the property says "up to rounding"). *)
 From Coq Require Import Reals List.
 From SV Require Import Rot.RotBase Gen.RotFormulas_gen Rot.RotAlgebra Rot.RotAliasProofs Rot.RotEuler Rot.RotEulerProofs
-  Rot.RotDispatch Rot.RotDispatchProofs Rot.RotMixedProofs Gen.RotDispatch_gen.
+  Rot.RotDispatch Rot.RotDispatchProofs Rot.RotMixedProofs Gen.RotDispatch_gen Rot.RotGJ Rot.RotGJProofs Rot.RotGJExample
+  Rot.RotReify Gen.RotReified_gen Rot.RotReifyProofs.
 Open Scope R_scope.
 
 (** ** Every matrix built from an Euler angle is a proper rotation *)
@@ -46,6 +47,10 @@ Proof. exact mat_mul_assoc. Qed.
 (** _mat_mul is correct when both operands are the same object (m @= m). *)
 Theorem c04_mat_mul_alias_safe : forall s, mat_mul_self s = mat_mul s s.
 Proof. exact mat_mul_self_eq. Qed.
+(** The same, generically: the translator also emits the nine entries as expanded polynomials ([mat_mul_self_tied],
+    [mat_mul_ss_tied]: the expansion is right); equality of the two lists is a named instance obligation per row. *)
+Theorem c04_mat_mul_alias_generic : polys_eqb mat_mul_self_polys mat_mul_ss_polys = true -> forall s, mat_mul_self s = mat_mul s s.
+Proof. exact alias_ok_safe. Qed.
 Theorem c04_rotation_closed : forall a b, rotation a -> rotation b -> rotation (mat_mul a b) /\ rotation (transpose a).
 Proof. intros a b Ha Hb. split; [exact (rotation_mul a b Ha Hb) | exact (rotation_transpose a Ha)]. Qed.
 Theorem c04_rotation_preserves_length : forall m v, rotation m ->
@@ -58,10 +63,31 @@ Theorem c04_rotation_inverse_is_transpose : forall m, rotation m ->
   (forall n, mat_mul n m = I3 -> n = transpose m) /\ (forall n, mat_mul m n = I3 -> n = transpose m).
 Proof. exact rotation_inverse_is_transpose. Qed.
 
+(** ** inverse() itself (Gauss-Jordan with partial pivoting).  [p] ranges over the straight-line programs of row operations
+    that the translator can read out of MatrixBase.inverse (Gen/RotInverse_gen.v: [inverse_prog]); [gj_prog_ok] is the
+    decidable acceptance test (abstract interpretation of the left block) that the check discharges for today's source;
+    [gj_inverse Rnum p] is the interpreter over the reals, the same Gallina function that is compared bit for bit with
+    the implementation over IEEE doubles.  Whenever inverse() returns, the result is a left inverse ... *)
+Theorem c04_gauss_jordan_inverse : forall p, gj_prog_ok p = true ->
+  forall m n, gj_inverse Rnum p (rows_of m) = GOk n -> mat_mul (mat_of n) m = I3.
+Proof. exact gauss_jordan_inverse. Qed.
+(** ... so on a rotation inverse() returns exactly the transpose. *)
+Theorem c04_inverse_is_transpose_on_rotations : forall p, gj_prog_ok p = true ->
+  forall m n, rotation m -> gj_inverse Rnum p (rows_of m) = GOk n -> mat_of n = transpose m.
+Proof. exact gauss_jordan_inverse_rotation. Qed.
+
 (** ** Matrix -> Angle -> Matrix.  libm's atan2 enters only through the visible premise [atan2_spec]. *)
 Theorem c04_euler_roundtrip : forall atan2, atan2_spec atan2 ->
   forall m, rotation m -> horiz m > 1 / 1000 -> from_angle_obj (to_angle atan2 m) = m.
 Proof. exact euler_roundtrip. Qed.
+(** The test that selects the non-degenerate branch, generically in the (operator, left operand, literal) read from
+    the source: an accepted guard IS "horizontal length of the forward row > 0.001" (the three parts of [guard_cfg_ok] are
+    named instance obligations), and the reified guard is the generated one. *)
+Theorem c04_to_angle_guard_is_engine_threshold : forall c, guard_cfg_ok c = true ->
+  forall m, guard_den c m <-> horiz m > 1 / 1000.
+Proof. exact guard_ok_horiz. Qed.
+Theorem c04_to_angle_guard_tied : forall s, ta_guard s <-> guard_den ta_guard_cfg s.
+Proof. exact ta_guard_tied. Qed.
 (** Inside the gimbal-lock band every entry is reproduced within twice the horizontal length of the forward axis. *)
 Theorem c04_gimbal_error_bound : forall atan2, atan2_spec atan2 ->
   forall m, rotation m -> horiz m <= 1 / 1000 -> mat_close (2 * horiz m) (from_angle_obj (to_angle atan2 m)) m.
@@ -95,6 +121,11 @@ Theorem c04_mixed_assoc_angle : forall atan2, atan2_spec atan2 -> forall v a B m
     spec atan2 (VVec (vec_rot (from_angle_obj a) v)) B = spec atan2 (VVec v) (VAng ab).
 Proof. exact mixed_assoc_angle. Qed.
 
+(** Non-vacuity of the Gauss-Jordan theorems: a program equal to today's generated one is accepted and inverse() returns on
+    the identity (which is a rotation). *)
+Example c04_inverse_hyp_satisfiable :
+  gj_prog_ok gj_ref_prog = true /\ gj_inverse Rnum gj_ref_prog (rows_of I3) = GOk (rows_of I3).
+Proof. exact gj_identity. Qed.
 (** Non-vacuity: the identity is a rotation outside the gimbal band; the pole is a rotation inside it. *)
 Example c04_hyp_satisfiable_main : rotation I3 /\ horiz I3 > 1 / 1000.
 Proof. exact rotation_I3_main. Qed.
